@@ -5,11 +5,13 @@ package notation
 import (
 	"context"
 	"errors"
+	"fmt"
 
 	vr "github.com/notaryproject/notation-go/internal/zzvr"
 	"github.com/notaryproject/notation-go/verifier/trustpolicy"
 	"github.com/opencontainers/go-digest"
 	ocispec "github.com/opencontainers/image-spec/specs-go/v1"
+	"oras.land/oras-go/v2/errdef"
 )
 
 const (
@@ -36,6 +38,7 @@ type c10Repo struct {
 	listLog    int
 	fetchLog   []int
 	descOK     bool
+	notFound   bool // an unfetchable signature fails as "not found" (else with an unspecific error)
 }
 
 func (r *c10Repo) Resolve(ctx context.Context, reference string) (ocispec.Descriptor, error) {
@@ -74,6 +77,10 @@ func (r *c10Repo) FetchSignatureBlob(ctx context.Context, desc ocispec.Descripto
 	i := int(desc.Size)
 	r.fetchLog = append(r.fetchLog, i)
 	if r.status[i] == c10Unfetchable {
+		if r.notFound {
+			// what oras' registry client and OCI layout store answer for content that is not there
+			return nil, ocispec.Descriptor{}, fmt.Errorf("%s: %w", desc.Digest, errdef.ErrNotFound)
+		}
 		return nil, ocispec.Descriptor{}, errors.New("cannot fetch")
 	}
 	return []byte{byte(i)}, ocispec.Descriptor{MediaType: "application/jose+json", Size: 1}, nil
@@ -88,6 +95,8 @@ type c10Verifier struct {
 	verifyLog []int
 	outcomes  []*VerificationOutcome
 	argsOK    bool
+	optsOK    bool
+	ref       string
 }
 
 func (v *c10Verifier) Verify(ctx context.Context, desc ocispec.Descriptor, signature []byte, opts VerifierVerifyOptions) (*VerificationOutcome, error) {
@@ -95,6 +104,11 @@ func (v *c10Verifier) Verify(ctx context.Context, desc ocispec.Descriptor, signa
 	v.verifyLog = append(v.verifyLog, i)
 	if !(desc.Digest == v.repo.resolved.Digest && desc.Size == v.repo.resolved.Size && opts.SignatureMediaType == "application/jose+json") {
 		v.argsOK = false
+	}
+	// what the caller asked for reaches the verification of every signature: the reference the policy is selected
+	// by, the metadata the signature must carry, the plugin configuration
+	if !(opts.ArtifactReference == v.ref && len(opts.UserMetadata) == 1 && opts.UserMetadata["um"] == "1" && len(opts.PluginConfig) == 1 && opts.PluginConfig["pc"] == "1") {
+		v.optsOK = false
 	}
 	switch v.repo.status[i] {
 	case c10Verifies:
@@ -113,6 +127,9 @@ type c10SkipVerifier struct {
 
 func (v *c10SkipVerifier) SkipVerify(ctx context.Context, opts VerifierVerifyOptions) (bool, *trustpolicy.VerificationLevel, error) {
 	v.skipLog++
+	if !(opts.ArtifactReference == v.ref && len(opts.UserMetadata) == 1 && opts.UserMetadata["um"] == "1" && len(opts.PluginConfig) == 1 && opts.PluginConfig["pc"] == "1") {
+		v.optsOK = false
+	}
 	switch v.mode {
 	case 2:
 		return true, trustpolicy.LevelSkip, nil
@@ -144,6 +161,12 @@ func VsymC10() {
 		}
 	}
 	repo.emptyFirst = vr.Choice("emptyFirstPage", 2) == 1
+	for i := 0; i < L; i++ {
+		if repo.status[i] == c10Unfetchable && !repo.notFound {
+			repo.notFound = vr.Choice("unfetchableAsNotFound", 2) == 1
+			break
+		}
+	}
 	refs := []string{"reg.io/repo:v1", "reg.io/repo@" + c10DigestA, "reg.io/repo", "reg.io/repo@sha256:xyz", "noslash"}
 	resolvedDigest := c10DigestA
 	// environment failures and digest mismatch only matter for well-formed references
@@ -159,7 +182,7 @@ func VsymC10() {
 		}
 	}
 	repo.resolved = ocispec.Descriptor{MediaType: "application/vnd.oci.image.manifest.v1+json", Digest: digest.Digest(resolvedDigest), Size: 528}
-	base := c10Verifier{repo: repo, argsOK: true}
+	base := c10Verifier{repo: repo, argsOK: true, optsOK: true, ref: refs[refKind]}
 	for i := 0; i < L; i++ {
 		base.outcomes = append(base.outcomes, &VerificationOutcome{RawSignature: []byte{byte(i)}})
 	}
@@ -176,7 +199,9 @@ func VsymC10() {
 		verifier = sv
 	}
 
-	desc, outcomes, err := Verify(context.Background(), verifier, repo, VerifyOptions{ArtifactReference: refs[refKind], MaxSignatureAttempts: int(N)})
+	desc, outcomes, err := Verify(context.Background(), verifier, repo, VerifyOptions{ArtifactReference: refs[refKind], MaxSignatureAttempts: int(N),
+		UserMetadata: map[string]string{"um": "1"}, PluginConfig: map[string]string{"pc": "1"}})
+	vr.Assert(bv.optsOK, "the policy check and the verification of every signature receive the caller's reference, required metadata and plugin configuration")
 
 	repoTouched := len(repo.resolveLog) > 0 || repo.listLog > 0 || len(repo.fetchLog) > 0
 	// the limit check comes first
